@@ -199,20 +199,24 @@ class Recorder:
                 ev = json.loads(m["body"].decode("utf-8"))
             except Exception:
                 pass
-            ctx = ev.get("context", {}) if isinstance(ev, dict) else {}
-            ctx = ctx if isinstance(ctx, dict) else {}
-            st = ctx.get("State") or {}
-            ex = ctx.get("Execution") or {}
-            br = st.get("Branch") or []
-            self.emit("pub", kind="event", exec=ex.get("Id") or "", state=st.get("Name") or "",
+            def _d(x):
+                return x if isinstance(x, dict) else {}
+            ctx = _d(_d(ev).get("context"))
+            st = _d(ctx.get("State"))
+            ex = _d(ctx.get("Execution"))
+            br = st.get("Branch") if isinstance(st.get("Branch"), list) else []
+            smid = _d(ctx.get("StateMachine")).get("Id", "")
+            smid = smid if isinstance(smid, str) else ""
+            sname = st.get("Name") if isinstance(st.get("Name"), str) else ""
+            exid = ex.get("Id") if isinstance(ex.get("Id"), str) else ""
+            retry = st.get("RetryCount", 0)
+            self.emit("pub", kind="event", exec=exid or "", state=sname or "",
                       branch=[[str(b.get("ID", "")), b.get("Index", -1), b.get("Length", -1), b.get("Range", "")]
                               for b in br if isinstance(b, dict)],
                       bparent=(br[-1].get("Parent", "") if br and isinstance(br[-1], dict) else "") or "",
-                      stype=w.state_type((ctx.get("StateMachine") or {}).get("Id", "") if isinstance(ctx.get("StateMachine"), dict) else "",
-                                         st.get("Name") or ""),
-                      retry=st.get("RetryCount", 0) or 0, shared=(key in w.shared_queues),
-                      smid=(ctx.get("StateMachine") or {}).get("Id", "") if isinstance(ctx.get("StateMachine"), dict) else "",
-                      data=ev.get("data") if isinstance(ev, dict) else None, **base)
+                      stype=w.state_type(smid, sname or ""),
+                      retry=retry if isinstance(retry, int) and not isinstance(retry, bool) else 0, shared=(key in w.shared_queues),
+                      smid=smid, data=ev.get("data") if isinstance(ev, dict) else None, **base)
         elif w.is_reply_queue(key):
             hdr = p.headers or {}
             self.emit("pub", kind="reply", callback=("x-SendTaskSuccess" in hdr or "x-SendTaskFailure" in hdr), **base)
